@@ -66,4 +66,266 @@ theorem halve_bv (x : BitVec 64) : ((x >>> 1) ||| (x &&& 1#64)).toNat = halveSti
   have : x.toNat &&& 1 % 2 ^ 64 = x.toNat % 2 := by simp [Nat.and_one_is_mod]
   rw [this]
 
+/-! ### generic facts about `roundNat`: numbers with at most `p` significant bits are fixed points -/
+
+theorem bitLen_lt' (n : Nat) : n < 2 ^ bitLen n := by
+  unfold bitLen
+  split
+  · subst_vars; simp
+  · exact Nat.lt_log2_self
+
+theorem bitLen_pos_le (n : Nat) (h : n ≠ 0) : 2 ^ (bitLen n - 1) ≤ n := by
+  unfold bitLen
+  simp [h]
+  exact Nat.log2_self_le h
+
+theorem bitLen_mul_pow (q s : Nat) (hq : q ≠ 0) : bitLen (q * 2 ^ s) = bitLen q + s := by
+  have h1 := bitLen_pos_le q hq
+  have h2 := bitLen_lt' q
+  have hb : 1 ≤ bitLen q := by unfold bitLen; simp [hq]
+  have : bitLen q + s = (bitLen q - 1 + s) + 1 := by omega
+  rw [this]
+  apply bitLen_of
+  · rw [Nat.pow_add]; exact Nat.mul_le_mul_right _ h1
+  · have : bitLen q - 1 + s + 1 = bitLen q + s := by omega
+    rw [this, Nat.pow_add]; exact Nat.mul_lt_mul_of_pos_right h2 (Nat.two_pow_pos s)
+
+theorem roundQS_fst_le (p n : Nat) : (roundQS p n).1 ≤ 2 ^ p := by
+  have hl := bitLen_lt' n
+  unfold roundQS
+  simp only
+  split
+  · rename_i h
+    have : 2 ^ bitLen n ≤ 2 ^ p := Nat.pow_le_pow_right (by omega) h
+    simp; omega
+  · rename_i h
+    have hq : n / 2 ^ (bitLen n - p) < 2 ^ p := by
+      rw [Nat.div_lt_iff_lt_mul (Nat.two_pow_pos _)]
+      rw [← Nat.pow_add]
+      have : p + (bitLen n - p) = bitLen n := by omega
+      rw [this]; exact hl
+    split <;> simp <;> omega
+
+/-- a number with at most `p` significant bits (q·2^s, q ≤ 2^p) is its own rounding -/
+theorem roundNat_exact (p q s : Nat) (hp : 1 ≤ p) (hq : q ≤ 2 ^ p) : roundNat p (q * 2 ^ s) = q * 2 ^ s := by
+  by_cases h0 : q = 0
+  · subst h0; simp [roundNat, roundQS, bitLen]
+  have hbl := bitLen_mul_pow q s h0
+  have hq1 := bitLen_pos_le q h0
+  have hq2 := bitLen_lt' q
+  have hblq : bitLen q ≤ p + 1 := by
+    by_cases hle : bitLen q ≤ p + 1
+    · exact hle
+    · have : 2 ^ (p + 1) ≤ 2 ^ (bitLen q - 1) := Nat.pow_le_pow_right (by omega) (by omega)
+      have : (2:Nat) ^ p < 2 ^ (p + 1) := Nat.pow_lt_pow_right (by omega) (by omega)
+      omega
+  simp only [roundNat, roundQS, hbl]
+  split
+  · simp
+  · rename_i hgt
+    -- shift k = bitLen q + s - p ≤ s + 1, and 2^k divides q·2^s
+    have hdvd : 2 ^ (bitLen q + s - p) ∣ q * 2 ^ s := by
+      by_cases hk : bitLen q + s - p ≤ s
+      · exact Nat.dvd_trans (Nat.pow_dvd_pow 2 hk) (Nat.dvd_mul_left _ _)
+      · -- bitLen q = p + 1, so q = 2^p
+        have hbq : bitLen q = p + 1 := by omega
+        have : 2 ^ p ≤ q := by rw [hbq] at hq1; simpa using hq1
+        have hqe : q = 2 ^ p := by omega
+        have hk2 : bitLen q + s - p = s + 1 := by omega
+        have hqs : q * 2 ^ s = 2 ^ (p + s) := by rw [hqe, Nat.pow_add]
+        rw [hk2, hqs]
+        exact Nat.pow_dvd_pow 2 (by omega)
+    have hmod : q * 2 ^ s % 2 ^ (bitLen q + s - p) = 0 := Nat.mod_eq_zero_of_dvd hdvd
+    have hpos : 0 < 2 ^ (bitLen q + s - p - 1) := Nat.two_pow_pos _
+    simp only [hmod]
+    have hne : ¬ (0 > 2 ^ (bitLen q + s - p - 1) ∨ 0 = 2 ^ (bitLen q + s - p - 1) ∧ q * 2 ^ s / 2 ^ (bitLen q + s - p) % 2 = 1) := by
+      omega
+    rw [if_neg hne]
+    exact Nat.div_mul_cancel hdvd
+
+theorem roundNat_idem (p n : Nat) (hp : 1 ≤ p) : roundNat p (roundNat p n) = roundNat p n := by
+  unfold roundNat
+  exact roundNat_exact p _ _ hp (roundQS_fst_le p n)
+
+theorem roundInt_idem (p : Nat) (v : Int) (hp : 1 ≤ p) : roundInt p (roundInt p v) = roundInt p v := by
+  unfold roundInt
+  by_cases h : v < 0
+  · simp only [h, if_true]
+    by_cases h2 : (roundNat p v.natAbs : Int) = 0
+    · simp [h2]
+      have : roundNat p v.natAbs = 0 := by omega
+      simp [roundNat, roundQS, bitLen]
+    · have : -(roundNat p v.natAbs : Int) < 0 := by omega
+      simp only [this, if_true, Int.natAbs_neg, Int.natAbs_natCast, roundNat_idem p _ hp]
+  · simp only [h, if_false]
+    have : ¬ ((roundNat p v.natAbs : Int) < 0) := by omega
+    simp only [this, if_false, Int.natAbs_natCast, roundNat_idem p _ hp]
+
+
+theorem roundNat_le (p n l : Nat) (hl : bitLen n ≤ l) (hp : p ≤ l) : roundNat p n ≤ 2 ^ l := by
+  have hlt := bitLen_lt' n
+  have hmono : 2 ^ bitLen n ≤ 2 ^ l := Nat.pow_le_pow_right (by omega) hl
+  have hq := roundQS_fst_le p n
+  unfold roundNat
+  unfold roundQS at hq ⊢
+  simp only at hq ⊢
+  split
+  · simp; omega
+  · rename_i h
+    have hs : ∀ q : Nat, q ≤ 2 ^ p → q * 2 ^ (bitLen n - p) ≤ 2 ^ l := by
+      intro q hq
+      have : q * 2 ^ (bitLen n - p) ≤ 2 ^ p * 2 ^ (bitLen n - p) := Nat.mul_le_mul_right _ hq
+      rw [← Nat.pow_add] at this
+      have e : p + (bitLen n - p) = bitLen n := by omega
+      rw [e] at this
+      omega
+    rw [if_neg h] at hq
+    split
+    · rename_i hc; rw [if_pos hc] at hq; exact hs _ hq
+    · rename_i hc; rw [if_neg hc] at hq; exact hs _ hq
+
+/-- rounding an integer of magnitude ≤ 2^64 stays ≤ 2^64 -/
+theorem roundNat_le64 (p n : Nat) (hp1 : 1 ≤ p) (hp : p ≤ 64) (hn : n ≤ 2 ^ 64) : roundNat p n ≤ 2 ^ 64 := by
+  by_cases h : n = 2 ^ 64
+  · subst h
+    have := roundNat_exact p 1 64 hp1 (Nat.one_le_two_pow)
+    simp only [Nat.one_mul] at this
+    omega
+  · have hlt : n < 2 ^ 64 := by omega
+    have hb : bitLen n ≤ 64 := by
+      unfold bitLen
+      split
+      · omega
+      · rename_i h0
+        have := (Nat.log2_lt h0).2 hlt
+        omega
+    exact roundNat_le p n 64 hb hp
+
+/-! ### the same halving argument at 24 bits (`u64f32`), and comparison with an integer constant -/
+
+/-- **round₂₄(n) = 2 · round₂₄(⌊n/2⌋ | (n & 1))** for every 64-bit n with the top bit set -/
+theorem round_halve24 (n : Nat) (h1 : 2 ^ 63 ≤ n) (h2 : n < 2 ^ 64) :
+    roundNat 24 n = 2 * roundNat 24 (halveSticky n) := by
+  have hs := halveSticky_eq n
+  have l1 : bitLen n = 64 := bitLen_of n 63 h1 h2
+  have l2 : bitLen (halveSticky n) = 63 := by
+    apply bitLen_of _ 62
+    · rw [hs]; split <;> omega
+    · rw [hs]; split <;> omega
+  simp only [roundNat, roundQS, l1, l2]
+  simp
+  generalize halveSticky n = h at *
+  have hq : h / 549755813888 = n / 1099511627776 := by rw [hs]; split <;> omega
+  have hc : (274877906944 < h % 549755813888 ∨ h % 549755813888 = 274877906944 ∧ h / 549755813888 % 2 = 1) ↔
+      (549755813888 < n % 1099511627776 ∨ n % 1099511627776 = 549755813888 ∧ n / 1099511627776 % 2 = 1) := by
+    rw [hq, hs]; split <;> omega
+  by_cases hd : 549755813888 < n % 1099511627776 ∨ n % 1099511627776 = 549755813888 ∧ n / 1099511627776 % 2 = 1
+  · rw [if_pos hd, if_pos (hc.2 hd), hq]; simp; omega
+  · rw [if_neg hd, if_neg (fun x => hd (hc.1 x)), hq]; simp; omega
+
+/-- comparison of a finite value with the positive constant K = M·2^E (given in any spelling) is comparison of its
+    integer part with K, for an integer K -/
+theorem Val.cmp_const (n : Bool) (m : Nat) (e : Int) (M E K : Nat) (hK : M * 2 ^ E = K) (hK0 : 0 < K) (t : Int)
+    (ht : (Val.fin n m e).trunc? = some t) :
+    (Val.cmp (.fin n m e) (.fin false M (E : Int)) = .lt ↔ t < (K : Int)) ∧
+    Val.cmp (.fin n m e) (.fin false M (E : Int)) ≠ .un := by
+  have hcmp : ∀ a b : Int, ((if a < b then Rel.lt else if a = b then Rel.eq else Rel.gt) = Rel.lt ↔ a < b) ∧
+      (if a < b then Rel.lt else if a = b then Rel.eq else Rel.gt) ≠ Rel.un := by
+    intro a b; constructor
+    · constructor
+      · intro h; by_cases h1 : a < b
+        · exact h1
+        · rw [if_neg h1] at h; split at h <;> simp at h
+      · intro h; simp [h]
+    · split
+      · simp
+      · split <;> simp
+  simp only [Val.cmp]
+  refine ⟨?_, (hcmp _ _).2⟩
+  rw [(hcmp _ _).1]
+  simp only [Val.trunc?, Option.some.injEq] at ht
+  have hMpos : 0 < M := by
+    rcases Nat.eq_zero_or_pos M with h | h
+    · subst h; simp at hK; omega
+    · exact h
+  cases n with
+  | true =>
+    -- negative (or −0): both sides hold
+    simp only [Val.scaled, if_true] at ht ⊢
+    have hb : (0:Int) < ((M * 2 ^ ((E:Int) - min e (E:Int)).toNat : Nat) : Int) := by
+      have : 0 < M * 2 ^ ((E:Int) - min e (E:Int)).toNat := Nat.mul_pos hMpos (Nat.two_pow_pos _)
+      omega
+    have ha : -((m * 2 ^ (e - min e (E:Int)).toNat : Nat) : Int) ≤ 0 := by omega
+    have htn : t ≤ 0 := by rw [← ht]; omega
+    simp only [Bool.false_eq_true, if_false]
+    constructor <;> intro _ <;> omega
+  | false =>
+    simp only [Val.scaled, Bool.false_eq_true, if_false] at ht ⊢
+    subst ht
+    simp only [Val.magTrunc]
+    rcases (show e < (E:Int) ∨ (E:Int) ≤ e by omega) with hlt | hge
+    · -- e < E: common exponent e
+      have hmin : min e (E:Int) = e := by omega
+      rw [hmin]
+      simp only [Int.sub_self, Int.toNat_zero, Nat.pow_zero, Nat.mul_one]
+      by_cases h0 : 0 ≤ e
+      · rw [if_pos h0]
+        obtain ⟨e', rfl⟩ := Int.eq_ofNat_of_zero_le h0
+        have hE : ((E:Int) - (e':Int)).toNat = E - e' := by omega
+        rw [hE]
+        have hsplit : M * 2 ^ (E - e') * 2 ^ e' = K := by
+          rw [Nat.mul_assoc, ← Nat.pow_add]
+          have : E - e' + e' = E := by omega
+          rw [this, hK]
+        simp only [Int.toNat_natCast]
+        rw [← hsplit]
+        have hp : 0 < 2 ^ e' := Nat.two_pow_pos e'
+        constructor
+        · intro h
+          have h' : m < M * 2 ^ (E - e') := by omega
+          have := Nat.mul_lt_mul_of_pos_right h' hp
+          exact_mod_cast this
+        · intro h
+          have h' : m * 2 ^ e' < M * 2 ^ (E - e') * 2 ^ e' := by exact_mod_cast h
+          have := Nat.lt_of_mul_lt_mul_right h'
+          exact_mod_cast this
+      · rw [if_neg h0]
+        have hE : ((E:Int) - e).toNat = E + (-e).toNat := by omega
+        rw [hE, Nat.pow_add, ← Nat.mul_assoc, hK]
+        have hp : 0 < 2 ^ (-e).toNat := Nat.two_pow_pos _
+        constructor
+        · intro h
+          have h' : m < K * 2 ^ (-e).toNat := by exact_mod_cast h
+          have := (Nat.div_lt_iff_lt_mul hp).2 h'
+          exact_mod_cast this
+        · intro h
+          have h' : m / 2 ^ (-e).toNat < K := by exact_mod_cast h
+          have := (Nat.div_lt_iff_lt_mul hp).1 h'
+          exact_mod_cast this
+    · -- E ≤ e: common exponent E, and e ≥ 0
+      have hmin : min e (E:Int) = (E:Int) := by omega
+      rw [hmin]
+      simp only [Int.sub_self, Int.toNat_zero, Nat.pow_zero, Nat.mul_one]
+      have h0 : 0 ≤ e := by omega
+      rw [if_pos h0]
+      obtain ⟨e', rfl⟩ := Int.eq_ofNat_of_zero_le h0
+      have hE : ((e':Int) - (E:Int)).toNat = e' - E := by omega
+      rw [hE]
+      simp only [Int.toNat_natCast]
+      have hsplit : m * 2 ^ e' = m * 2 ^ (e' - E) * 2 ^ E := by
+        rw [Nat.mul_assoc, ← Nat.pow_add]
+        have : e' - E + E = e' := by omega
+        rw [this]
+      rw [hsplit, ← hK]
+      have hp : 0 < 2 ^ E := Nat.two_pow_pos E
+      constructor
+      · intro h
+        have h' : m * 2 ^ (e' - E) < M := by exact_mod_cast h
+        have := Nat.mul_lt_mul_of_pos_right h' hp
+        exact_mod_cast this
+      · intro h
+        have h' : m * 2 ^ (e' - E) * 2 ^ E < M * 2 ^ E := by exact_mod_cast h
+        have := Nat.lt_of_mul_lt_mul_right h'
+        exact_mod_cast this
+
 end ChibiVerif.Spec.Fpu
